@@ -1,25 +1,25 @@
 """C08 — EIP-712 digests equal the standard's hashStruct/encodeType definition."""
 import json
 
-from .. import tdgen
+from .. import tdcli, tdgen
 from ..gen import both, lib_case
 from ..ref import eip712, td
 from ..run.core import V
 
 ID = "C08"
 LEVEL = "exploration"
-NEEDS = {"lib": ["dev", "release"]}
+NEEDS = {"lib": ["dev", "release"], "cli": ["dev", "release"]}
 RULE = ("typeddata.hash(json) events on random well-typed documents (1..8 struct types, shared / repeated / recursive dependencies, "
         "multi-dimensional arrays, all atoms, boundary values in every numeric spelling, all 31 domain shapes); the oracle "
         "re-reads the JSON text, interprets it against the declared types and computes encodeType / hashStruct / the 0x1901 "
         "digest itself; digest, domainSeparator and messageHash must all match. Hook events: encodeType string equality, member "
-        "type parse/print image; distinct = distinct documents; non-trivial = three digests compared")
+        "type parse/print image. CLI events: a sample of the documents through `hash typeddata` (digest), `hash typeddata --message-hash` / `-m` (hashStruct of the message) and `sign typeddata` (signature recovers to the account over the digest); distinct = distinct documents; non-trivial = three digests compared")
 REQUIRED = (["digests-equal", "repeat-before", "repeat-between", "repeat-after", "recursive-primary", "shared-dependency(diamond)",
              "negative-int", "array-multidim", "array-fixed", "array-of-structs", "struct-name-atom-lookalike", "deps>=3",
              "primary-not-first-in-name-order", "dep-sorts-before-primary", "empty-struct",
              "dep-name-is-prefix-of-another(sorts-differently-when-rendered)", "sibling-document(same-signatures-one-dependency-changed)", "struct-name-outside-identifier-grammar", "primary-type-is-the-domain-type", "message-references-domain-type", "hook-encode-type-equal", "hook-member-kind"]
             + ["atom-" + a for a in ("bool", "address", "string", "bytes", "bytesN", "uint", "int")]
-            + ["domain-fields-%d" % k for k in range(1, 6)])
+            + ["domain-fields-%d" % k for k in range(1, 6)] + ["cli-accept-hashes-equal-and-signature-recovers"])
 LOOKALIKES = {"bytes0", "uint9", "int264", "bytes33", "uint320", "uint256x", "int7", "bytes64"}
 
 
@@ -157,13 +157,14 @@ def judge_member_kind(case, obs):
     return v.bucket("hook-member-kind")
 
 
-JUDGES = {"hash": judge_hash, "encode_type": judge_encode_type, "member_kind": judge_member_kind}
+JUDGES = {"hash": judge_hash, "encode_type": judge_encode_type, "member_kind": judge_member_kind, "cli-doc": tdcli.make_td_judge(ID)}
 
 
 def shards(tier, seed):
     T = tier == "thorough"
     out = [{"name": "docs-%d" % i, "count": 2000 if T else 200} for i in range(24)]
     out.append({"name": "domains", "reps": 6 if T else 1, "exhaustive": "all 31 legal EIP712Domain shapes"})
+    out += [{"name": "cli-surface-%d" % i, "part": i} for i in range(8)]
     out.append({"name": "hook-graphs", "count": 30000 if T else 3000})
     out.append({"name": "hook-member-kind", "exhaustive": "member type image: every atom x every suffix combination to depth 3"})
     return out
@@ -175,6 +176,13 @@ def _hash_case(text, cls, tags=()):
 
 def gen(shard, rng, tier):
     name = shard["name"]
+    if name.startswith("cli-surface"):
+        # a sample of the same documents through every command that reads a typed-data document (see tdcli)
+        def lib_cases():
+            for sub in [{"name": "docs-0", "count": 3000 if tier == "thorough" else 300}, {"name": "domains", "reps": 1}]:
+                yield from gen(sub, rng, tier)
+        yield from tdcli.from_lib_cases(lib_cases(), every=2, limit=3000 if tier == "thorough" else 300, part=shard["part"], parts=8)
+        return
     if name.startswith("docs-"):
         for i in range(shard["count"]):
             shape = rng.choice([None, None, None, "repeat", "repeat", "recursive", "chain"])
